@@ -484,7 +484,9 @@ pub fn check_roundtrip(ctx: &mut Ctx, doc: &[u8]) {
                 let t = sonic_rs::to_string(v).map_err(|e| e.to_string())?;
                 let tref = refjson::parse_doc(t.as_bytes(), RMode::Decode).map_err(|r| format!("{what} (raw={raw}): text {:?} not well-formed: {:?}@{}", t, r.reason, r.at))?;
                 let (mut x, mut y) = (String::new(), String::new());
-                if raw || arb {
+                // (a hand-built Deserializer is in raw-number mode only when asked to: the
+                // arbitrary_precision feature configures the from_* functions)
+                if raw {
                     lit_dump(&root, doc, sort, &mut x);
                     lit_dump(&tref, t.as_bytes(), false, &mut y);
                 } else {
